@@ -24,6 +24,10 @@ type safeBuf struct{ bytes.Buffer }
 
 // newCollector builds one of the compressing collectors; streaming ones write to w.
 func newCollector(ctor string, n int, w io.Writer) ftdc.Collector {
+	if strings.HasPrefix(ctor, "sample0-") {
+		// the time-sampling wrapper with a zero interval lets every sample through: transparent, whatever it wraps
+		return ftdc.NewSamplingCollector(0, newCollector(ctor[len("sample0-"):], n, w))
+	}
 	switch ctor {
 	case "base":
 		return ftdc.NewBaseCollector(n)
@@ -39,7 +43,9 @@ func newCollector(ctor string, n int, w io.Writer) ftdc.Collector {
 	panic("unknown collector " + ctor)
 }
 
-func isStreaming(ctor string) bool { return strings.HasPrefix(ctor, "streaming") }
+func isStreaming(ctor string) bool {
+	return strings.HasPrefix(strings.TrimPrefix(ctor, "sample0-"), "streaming")
+}
 
 var runStart time.Time
 
@@ -138,15 +144,28 @@ func chunkTables(ctx context.Context, out []byte) (string, error) {
 func iterDocs(it ftdc.Iterator) ([]string, error) {
 	defer it.Close()
 	var ds []string
+	var kept []*birch.Document // a document handed out by an iterator stays what it was, also after further Next calls
 	for it.Next() {
-		b, err := it.Document().MarshalBSON()
+		d := it.Document()
+		b, err := d.MarshalBSON()
 		if err != nil {
 			ds = append(ds, "X:marshal")
+			kept = append(kept, nil)
 			continue
 		}
 		ds = append(ds, hx(b))
+		kept = append(kept, d)
 	}
-	return ds, it.Err()
+	err := it.Err()
+	for i, d := range kept {
+		if d == nil {
+			continue
+		}
+		if b, merr := d.MarshalBSON(); merr != nil || hx(b) != ds[i] {
+			ds[i] = "X:changed-after-next"
+		}
+	}
+	return ds, err
 }
 
 func errStr(err error) string {
